@@ -7,6 +7,45 @@ NOTE = (
 )
 
 CHECKS = {
+    "C02": {
+        "technique": "refinement-ladder monitor: each rung's stored field (icontract postcondition "
+        "on simulate) and flux recovery vs the exact solution of the documented problem (Fourier "
+        "series; own method-of-lines solver with a self-consistency guard)",
+        "level_text": "Runtime monitoring of ladders nx 25..200 (400 thorough) on quadratic grids. "
+        "'Converges' is restated as a bounded claim: error <= K/nx at every rung with calibrated "
+        "K and finest/coarsest <= 0.5; O(1) defects fail, O(1/nx) re-indexings do not.",
+        "design_ref": "DESIGN.md section 3, C02",
+        "level_note": NOTE + " Reference models in vf/refmodels/diffusion.py are trusted after "
+        "being cross-checked against each other on constant diffusivity.",
+    },
+    "C05": {
+        "technique": "spy on the call-time-resolved curve_fit (p0, bounds, termination message, "
+        "nfev) + scaling-law identities (bit-exact for powers of two) + closed-form one-parameter "
+        "optimum + fit round trips over many decades",
+        "level_text": "Runtime monitoring of real fits and forecasts on three recovery curves. "
+        "Known finding K3 is recognised only when the unit-magnitude rescaling of the same problem "
+        "round-trips.",
+        "design_ref": "DESIGN.md section 3, C05",
+        "level_note": NOTE,
+    },
+    "C18": {
+        "technique": "spies on _obj_function (every evaluation of real fits) and on the reservoir "
+        "constructor (node count); each recorded objective vector recomputed through the public "
+        "simulator; limits and row filter read from the returned Parameters / recorded arrays",
+        "level_text": "Runtime monitoring of real Nelder-Mead fits on generated production tables "
+        "with zero-rate days, missing pressures, both filter settings and several windows.",
+        "design_ref": "DESIGN.md section 3, C18",
+        "level_note": NOTE,
+    },
+    "C20": {
+        "technique": "artists of the returned Axes (Agg backend) compared with independently "
+        "recomputed arrays; the real SquareRootScale transform objects driven with non-negative "
+        "arrays incl. 0, denormals, 1e300 (ulp-level inverse laws)",
+        "level_text": "Runtime monitoring of the plotting helpers over simulated reservoirs, "
+        "strides, rescale / tick settings and production-comparison inputs.",
+        "design_ref": "DESIGN.md section 3, C20",
+        "level_note": NOTE,
+    },
     "C10": {
         "technique": "history monitor: every call of every history logged at the client boundary "
         "(result + observable state), judged by bit-identical replay of 'latest simulate + later "
